@@ -343,3 +343,24 @@ Example per_match_multi_line_record_example :
   /\ pm_block_records cfg_v9 ml_env9 None (mkSunk abcde 0 (Some 1) None [(2, 5); (5, 6)])
      = [[49; 58; 51; 58; 48; 58; 97; 98; 99; 10]; [50; 58; 50; 58; 52; 58; 100; 101; 10]]%N.
 Proof. vm_compute. split; reflexivity. Qed.
+
+(* FINDING MultiLineOnlyMatchingColumnIsBlockRelative: theorem 11 says the column of a multi-line -o
+   record is 1 + the submatch's start IN THE BLOCK.  So "the column is the submatch's column in its own
+   line" (what line-oriented -o, --vimgrep and multi-line --vimgrep print) is false as soon as a block has
+   a submatch that starts on a later line.  Witness = the real run
+     printf 'a1\nb1\n' | rg -U -o -n --column '[ab]1\n'     prints 1:1:a1 and 2:4:b1
+   (the two touching matches form one block; "b1" starts at column 1 of line 2, the line has 2 bytes;
+    rg -U --vimgrep prints 2:1, rg -o without -U prints 2:1). *)
+Definition cfg_oc9 : stdconfig := mkStd false false true false false None true false false None None [58]%N [45]%N None.
+Definition a1b1 : sunk := mkSunk [97; 49; 10; 98; 49; 10]%N 0 (Some 1) None [(0, 3); (3, 6)].
+Theorem only_matching_multi_line_column_is_line_relative_refuted :
+  exists cfg env sk,
+    st_only_matching cfg = true /\ st_column cfg = true /\ spans_ordered 0 (k_matches sk) /\
+    nth_error (block_lines env sk) 1 = Some (3, 6) /\ In (3, 6) (k_matches sk) /\   (* line 2 = submatch 2 = [3, 6) *)
+    w_out (sink_slow_multi_line cfg env None sk w_new)
+    = [49; 58; 49; 58; 97; 49; 10;  50; 58; 52; 58; 98; 49; 10]%N.                  (* "1:1:a1\n2:4:b1\n" *)
+Proof.
+  exists cfg_oc9, ml_env9, a1b1. vm_compute.
+  repeat split; try reflexivity; try lia. right. left. reflexivity.
+Qed.
+Print Assumptions only_matching_multi_line_column_is_line_relative_refuted.
